@@ -1,10 +1,11 @@
 #![allow(clippy::type_complexity)]
-use std::{cell::Cell, cell::RefCell, collections::VecDeque, fmt, num, rc::Rc};
+use std::task::{Context, Poll, Waker, ready};
+use std::{cell::Cell, cell::RefCell, collections::VecDeque, fmt, future::Future, num, pin::Pin, rc::Rc};
 
 use ntex_bytes::{BytePages, Bytes, BytesMut};
 use ntex_codec::{Decoder, Encoder};
 use ntex_io::IoRef;
-use ntex_util::{HashMap, HashSet, channel::pool};
+use ntex_util::{HashMap, HashSet, channel::Canceled, channel::pool};
 
 use crate::v5::codec::{self, Decoded, Encoded, Packet, Publish};
 use crate::{QoS, error, error::SendPacketError, payload::PlSender, types::packet_type};
@@ -315,10 +316,8 @@ impl MqttShared {
         self.flags.set(flags);
 
         // streaming waiter
-        if let Some(tx) = self.streaming_waiter.take()
-            && tx.send(()).is_ok()
-        {
-            return;
+        if let Some(tx) = self.streaming_waiter.take() {
+            let _ = tx.send(());
         }
 
         // check if there are waiters
@@ -508,6 +507,15 @@ impl MqttShared {
         id: num::NonZeroU16,
         ack: AckType,
     ) -> Result<pool::Receiver<Ack>, SendPacketError> {
+        // slot is not taken on failure, hand the wake-up over
+        self.wait_response_inner(id, ack).inspect_err(|_| self.wake_waiter())
+    }
+
+    fn wait_response_inner(
+        &self,
+        id: num::NonZeroU16,
+        ack: AckType,
+    ) -> Result<pool::Receiver<Ack>, SendPacketError> {
         let mut queues = self.queues.borrow_mut();
         if queues.inflight_ids.contains(&id) {
             Err(SendPacketError::PacketIdInUse(id))
@@ -525,11 +533,25 @@ impl MqttShared {
         if queues.inflight.back().is_some_and(|item| item.0 == id) {
             queues.inflight.pop_back();
             queues.inflight_ids.remove(&id);
+            drop(queues);
+            self.wake_waiter();
         }
     }
 
     /// Register ack in response channel
     pub(super) fn wait_publish_response(
+        &self,
+        id: num::NonZeroU16,
+        ack: AckType,
+        pkt: Publish,
+        payload: Option<Bytes>,
+    ) -> Result<pool::Receiver<Ack>, SendPacketError> {
+        // slot is not taken on failure, hand the wake-up over
+        self.wait_publish_response_inner(id, ack, pkt, payload)
+            .inspect_err(|_| self.wake_waiter())
+    }
+
+    fn wait_publish_response_inner(
         &self,
         id: num::NonZeroU16,
         ack: AckType,
@@ -601,13 +623,35 @@ impl MqttShared {
     /// Readiness is checked again after every wake-up, a slot could be
     /// taken by another sender in the meantime. Caller must register
     /// its packet without yielding.
-    pub(super) async fn wait_ready(&self) -> bool {
+    pub(super) async fn wait_ready(self: &Rc<Self>) -> bool {
         while let Some(rx) = self.wait_readiness() {
-            if rx.await.is_err() {
+            if self.wait(rx).await.is_err() {
                 return false;
             }
         }
         true
+    }
+
+    /// Wait for wake-up, hand it over if waiter is dropped before it runs
+    pub(super) fn wait(self: &Rc<Self>, rx: pool::Receiver<()>) -> Waiter {
+        Waiter { rx, shared: self.clone(), done: false }
+    }
+
+    /// Wake up next waiter if a packet can be sent.
+    ///
+    /// A woken waiter that does not take a slot hands the wake-up over,
+    /// nothing else wakes the rest while no packets are in flight.
+    pub(super) fn wake_waiter(&self) {
+        if !self.flags.get().contains(Flags::WRB_ENABLED) {
+            let mut queues = self.queues.borrow_mut();
+            if queues.len() < self.cap.get() {
+                while let Some(tx) = queues.waiters.pop_front() {
+                    if tx.send(()).is_ok() {
+                        break;
+                    }
+                }
+            }
+        }
     }
 
     /// Register ack in response channel
@@ -738,6 +782,34 @@ impl AckType {
             AckType::Complete => "Expected PUBCOMP packet",
             AckType::Subscribe => "Expected SUBACK packet",
             AckType::Unsubscribe => "Expected UNSUBACK packet",
+        }
+    }
+}
+
+/// Parked sender
+pub(super) struct Waiter {
+    rx: pool::Receiver<()>,
+    shared: Rc<MqttShared>,
+    done: bool,
+}
+
+impl Future for Waiter {
+    type Output = Result<(), Canceled>;
+
+    fn poll(mut self: Pin<&mut Self>, cx: &mut Context<'_>) -> Poll<Self::Output> {
+        let result = ready!(self.rx.poll_recv(cx));
+        self.done = true;
+        Poll::Ready(result)
+    }
+}
+
+impl Drop for Waiter {
+    fn drop(&mut self) {
+        // wake-up is delivered but waiter is dropped before it could run
+        if !self.done
+            && let Poll::Ready(Ok(())) = self.rx.poll_recv(&mut Context::from_waker(Waker::noop()))
+        {
+            self.shared.wake_waiter();
         }
     }
 }
